@@ -8,6 +8,17 @@ NOT_YET = {}
 TB = ("Trusted: Lean kernel (axioms propext, Classical.choice, Quot.sound only; audited by #print axioms on every run); "
       "the hand-written model's correspondence to the code (differential, bounded by the generators whose distribution is in the evidence); ")
 CLAIMS = {
+ "C19": dict(
+  category="other",
+  text=("PARTIAL by nature. Proved in Lean 4 for EVERY JSON value (mutual induction over values, arrays and objects): the XML converter only emits element "
+        "names that are XML names (a key that is not one becomes <entry key=…>), its tags are properly nested (stack discipline, nothing left open), the escaped "
+        "form of every Unicode scalar contains no '<', no raw control character (only TAB/LF in element text) and no '\"' in attribute values; and main's "
+        "control flow exits non-zero with a message and without a document on every failure, 0 with a document only on complete success. EXERCISED, not proved: "
+        "the real binary (rebuilt every run) against loopback servers, 2 modes x 6 formats: JSON and BSON (independent walker) compared with the library's own "
+        "response, XML compared byte for byte with the Lean model's rendering of the same value (and parsed by expat where XML 1.0/1.1 agree), invalid invocations "
+        "of each kind. The serialisers (serde_json, quick-xml, bson, base64, hex), clap and the process itself are outside any model."),
+  note=TB + "Known finding: u64 > i64::MAX is not representable in BSON (clean error now). Games of other protocol families are added as they land.",
+  technique="Lean 4 proof of the converter's well-formedness invariants and exit logic + byte-exact differential against the real binary (partial)"),
  "C12": dict(
   category="other",
   text=("PARTIAL by nature. Proved in Lean 4 on the model (for every server behaviour): at most 3·(retries+1)+1 blocking steps of a Valve query can run "
